@@ -3,6 +3,7 @@
 CONSTANTS
   MaxConj = 0
   MaxAlt = 0
+  MaxAtoms = 6
   MaxArch = 0
   MaxGroups = 0
   MaxTerms = 0
